@@ -78,6 +78,56 @@ def _absorb(chk, res, how, cat_by_idx):
     return summary, kinds
 
 
+CONFIGS = ("std-135/80", "routed37-135/37", "routed25-135/25", "nobase-135/80")
+MUST_ALL_CONFIGS = ("poseidon", "mds", "arith", "arithext", "mulext", "ra", "reducing", "reducingext", "coset")
+
+
+def _builder_config_guard(chk, res):
+    """Vacuity guard of the builder-configuration dimension: circuit evaluators (and the builder helpers
+    they call) branch on the CircuitConfig, so eval_unfiltered_circuit is compared with eval_unfiltered
+    in circuits built under every configuration of CONFIGS; here it is checked that each configuration
+    really was exercised for every gate and that the configuration-dependent branches were taken."""
+    built = {c: 0 for c in CONFIGS}
+    skips = []
+    uses = {}
+    for r in res[:-1]:
+        for c in r.get("circuits", []):
+            if "gates" in c:
+                built[c["cfg"]] += 1
+                uses.setdefault((r["gate"]["kind"], c["cfg"]), set()).update(c["gates"])
+            else:
+                skips.append({"gate": r["gate"], "cfg": c["cfg"], "why": c.get("skipped") or c.get("build_panic")})
+    entries = len(res) - 1
+    missing = [(k, c) for k in MUST_ALL_CONFIGS for c in CONFIGS if (k, c) not in uses]
+    pos = {c: "PoseidonMdsGate" in uses.get(("poseidon", c), set()) for c in CONFIGS}
+    base_arith = sorted({k for (k, c), gs in uses.items() if "ArithmeticGate" in gs})
+    branches = {
+        "PoseidonGate::eval_unfiltered_circuit use_mds_gate=true (naive partial rounds, PoseidonMdsGate rows)":
+            pos["std-135/80"] and pos["nobase-135/80"],
+        "PoseidonGate::eval_unfiltered_circuit use_mds_gate=false (fast partial rounds) and "
+        "Poseidon::mds_layer_circuit inline rows (num_routed_wires < 24*D)":
+            ("poseidon", "routed37-135/37") in uses and not pos["routed37-135/37"]
+            and ("poseidon", "routed25-135/25") in uses and not pos["routed25-135/25"],
+        "operations-per-gate packing of the arithmetic / extension gates at 80, 37 and 25 routed wires":
+            all(built[c] > 0 for c in CONFIGS),
+        "CircuitBuilder::arithmetic use_base_arithmetic_gate=false route (configuration exercised)":
+            built["nobase-135/80"] > 0,
+    }
+    chk.extra["builder_configs"] = {
+        "configs": list(CONFIGS), "circuits_built": built, "entries": entries, "skipped_pairs": skips[:40],
+        "branches_covered": branches,
+        "evaluators_that_place_a_base_ArithmeticGate": base_arith or
+            "none: no circuit evaluator reaches CircuitBuilder::arithmetic, the use_base_arithmetic_gate branch is "
+            "exercised as a configuration but is not taken by any gate evaluator in this tree",
+    }
+    chk.canary("in-circuit evaluators compared under every builder configuration for every catalogue gate "
+               "(no pair skipped without a listed reason)",
+               all(built[c] + sum(1 for s_ in skips if s_["cfg"] == c) == entries for c in CONFIGS)
+               and not missing and sum(built.values()) >= 4 * entries - len(skips))
+    for what, ok in branches.items():
+        chk.canary("builder-configuration branch covered: " + what, ok)
+
+
 def run(chk, tier):
     thorough = tier == "thorough"
     chk.rule = ("model: one state per (gate case, choice of constants / hash / generator inputs) of MCGates, every such "
@@ -137,7 +187,7 @@ def run(chk, tier):
     chk.extra["catalogue"] = {"entries": len(cat), "kinds": kinds_seen}
     chk.sample({"catalogue_entry": cat[len(cat) // 3]})
     rows = 12 if thorough else 4
-    args = ["gates", "--cat", o("c07-cat.ndjson"), "--rows", rows, "--circuit-rows", 16 if thorough else 4,
+    args = ["gates", "--cat", o("c07-cat.ndjson"), "--rows", rows, "--circuit-rows", 24 if thorough else 8,
             "--log", o("c07-gatelog.ndjson"), "--log-budget", 480 if thorough else 160]
     res = common.vh(args, binname=BIN, env={"RAYON_NUM_THREADS": "3"}, timeout=1500)
     summary, kinds = _absorb(chk, res, "vh c07 gates --cat <entry>", cat_by_idx)
@@ -146,6 +196,7 @@ def run(chk, tier):
     if len(kinds) != 16:
         raise ToolError("harness covered %d gate kinds, expected 16" % len(kinds))
     chk.extra["replay"] = {"release": summary, "per_kind": kinds}
+    _builder_config_guard(chk, res)
     chk.evaluations += summary["evaluations"] + summary["circuit_evals"]
     chk.nontrivial += summary["distinct_nontrivial"]
     chk.traces += summary["entries"]
